@@ -137,9 +137,11 @@ Parse(b) ==
             ELSE LET w == Walk(b.items, 5, 0, 1, a0)
                      ds == SelectSeq(w.unt \o w.aut, LAMBDA i : b.items[i].k = "draft")
                  IN IF w.err \/ w.rem > 0 THEN w @@ [res |-> "err"]
-                    ELSE IF w.dec THEN w @@ [res |-> "dec"]      \* returned before the draft check
-                    ELSE IF Len(ds) > 0 /\ b.items[ds[1]].q = "ok" THEN w @@ [res |-> "ok"]
-                    ELSE w @@ [res |-> "err"]
+                    \* (the draft identification is required on the decrypt-error path as well: fix for the v5
+                    \*  variant of finding F-4)
+                    ELSE IF ~(Len(ds) > 0 /\ b.items[ds[1]].q = "ok") THEN w @@ [res |-> "err"]
+                    ELSE IF w.dec THEN w @@ [res |-> "dec"]
+                    ELSE w @@ [res |-> "ok"]
 
 (***************************************************************************)
 (* Response builders (packet/mod.rs) and encoder sizes.                    *)
